@@ -44,7 +44,7 @@ def opts(tier):
             add_sensor(rng, spec, ctype, 0.5, only_float=True)     # sensor scales are defined on floating point data
             add_scaling(rng, spec, ctype, p=0.4)
     o.scaling = scaling
-    return o
+    return gen.deepen(o, tier)
 
 
 def generate(rng, tier):
